@@ -572,3 +572,49 @@ def ob_clear_resets_every_time(kind: int, o0: int, p0: int, o1: int, p1: int) ->
     ops = [(cint(o0, 0, 4), cint(p0, 0, 2)), (3, 0), (cint(o1, 0, 4), cint(p1, 0, 2)), (3, 0)]
     with untraced():
         return run_script(kind, ops)
+
+
+# ------------------------------------------------------------------------------------------------ key names the code itself singles out
+# state_store.py treats some top-level key names specially (KNOWN_UNSERIALIZABLE_KEYS: values under them may be dropped when they
+# cannot be serialized).  A JSON value stored under such a name is an ordinary value and must behave like under any other name.
+import workflows.context.state_store as _ss_mod  # noqa: E402
+
+SPECIAL_KEYS: List[str] = [k for k in getattr(_ss_mod, "KNOWN_UNSERIALIZABLE_KEYS", ()) if isinstance(k, str)]
+for _k in ast_keylike("state_store", "sqlite_state_store"):
+    # (names of the containers' own attributes such as '_data' are outside, see OUTSIDE)
+    if _k not in SPECIAL_KEYS and _k.isidentifier() and not _k.startswith("_"):
+        SPECIAL_KEYS.append(_k)
+NSPECIAL = len(SPECIAL_KEYS)
+
+
+@obligation(quick=150, thorough=400, partitions_quick=["how == 0", "how == 1", "how == 2"],
+            what="DictState on BOTH stores: a JSON value written under a top-level key whose NAME the store code itself singles out (the "
+                 "known-unserializable key names, every key literal of state_store.py / sqlite_state_store.py) — through set, set(sub-path), "
+                 "edit_state or set_state — is read back by get / get_state exactly like under any other name, and the two stores agree",
+            bounds={"keys": "KNOWN_UNSERIALIZABLE_KEYS + identifier-like key literals of the two modules", "values": "first 9 JSON payloads", "write": "set / edit_state / set_state"})
+def ob_store_special_keys(ki: int, vi: int, how: int) -> bool:
+    """
+    pre: 0 <= ki < NSPECIAL and 0 <= vi < NPLAIN and 0 <= how <= 2
+    post: _
+    """
+    key, v, how = pickb(SPECIAL_KEYS, ki), pickb(VALS, vi), cint(how, 0, 2)
+    with untraced():
+        want = {key: to_plain(copy.deepcopy(v))}
+        with SqliteEnv() as env:
+            for store in new_stores(K_DS, env):
+                try:
+                    if how == 0:
+                        drive(store.set(key, copy.deepcopy(v)))
+                    elif how == 1:
+                        def put(s: Any) -> None:
+                            s[key] = copy.deepcopy(v)
+                        drive(_edit(store, put))
+                    else:
+                        drive(store.set_state(DictState(**{key: copy.deepcopy(v)})))
+                    if not deq(store_plain(store), want):
+                        return False
+                    if not deq(to_plain(drive(store.get(key, DEFAULT))), want[key]):
+                        return False
+                except Exception:
+                    return False
+        return True
